@@ -387,7 +387,7 @@ func (r *run) dimsCut(id *ident, x absQuery) []string {
 // decoded chase asks its sub-question in class IN by construction).
 func (r *run) judge(route string, x absQuery, o outcome, detail string) {
 	violate := func(kind string, dims []string, what string) {
-		key := fmt.Sprintf("exact-audience/%s/%s/%s/%s", route, kind, strings.Join(dims, "+"), r.u.family)
+		key := fmt.Sprintf("exact-audience/%s/%s/%s", kind, strings.Join(dims, "+"), r.u.family)
 		r.res.Violate(key, fmt.Sprintf("[%s %s] route %s: query %s got %s", r.beh.Name, r.u.family, route, r.describeQuery(x), what),
 			r.replayObj(route, x, o, detail))
 	}
@@ -452,19 +452,26 @@ func probeID(route string, x absQuery) string {
 	return fmt.Sprintf("%s|%s|%s|%s|%v|%s", route, x.Name, x.Type, x.Class, x.CD, x.Client)
 }
 
-func (r *run) relevantNames() map[string]bool {
-	rel := map[string]bool{}
-	for _, p := range r.beh.Kdom {
-		switch p.Name {
-		case "n":
-			rel["n"], rel["N"], rel["s"] = true, true, true
-		case "e":
-			rel["e"] = true
-		case "s":
-			rel["s"] = true
+// relevant: the query computes at least one key from an adversarial preimage
+// (the spec's relq); every other query only ever computes keys under which
+// nothing was filed.  Those are probed at the last step of a behaviour only.
+func (r *run) relevant(x absQuery) bool {
+	t := &r.in.Tables
+	scopes := map[string]bool{"sh": true, t.OwnScope[x.Client]: true}
+	for _, s := range t.ProbesOf[x.Client] {
+		scopes[s] = true
+	}
+	for ns := range scopes {
+		if r.inAdv(absID{Name: r.fold(x.Name), Type: x.Type, Class: x.Class, CD: x.CD, Scope: ns}) {
+			return true
 		}
 	}
-	return rel
+	for _, sf := range t.SuffixesOf[r.fold(x.Name)] {
+		if r.inAdv(absID{Name: sf, Type: "T0", Class: x.Class, CD: false, Scope: "sh"}) {
+			return true
+		}
+	}
+	return false
 }
 
 func (r *run) expected(st *stepIn) map[string]absRes {
@@ -509,6 +516,7 @@ func (r *run) compare(route string, x absQuery, o outcome, exp absRes, hasExp bo
 		r.res.Count("noncanonical_keyed_apart", 1)
 		return
 	}
+	r.res.Count("drift_"+r.u.family, 1)
 	r.res.DriftNote("[%s %s] route %s query %s: model expects %s %+v, code gave %s %v", r.beh.Name, r.u.family, route,
 		r.describeQuery(x), want, exp, got, r.describeUIDs(o.uids))
 }
@@ -526,17 +534,16 @@ func (r *run) describeUIDs(uids []uint32) string {
 // probeAll exercises every route after a step.
 func (r *run) probeAll(st *stepIn, full bool) map[string]outcome {
 	exp := r.expected(st)
-	rel := r.relevantNames()
 	now := map[string]outcome{}
 	for _, nm := range absQNames {
-		if !full && !rel[nm] {
-			continue
-		}
 		for _, ty := range absTypes {
 			for _, cl := range absClasses {
 				for _, cd := range []bool{false, true} {
 					for _, cli := range absClients {
 						x := absQuery{Name: nm, Type: ty, Class: cl, CD: cd, Client: cli}
+						if !full && !r.relevant(x) {
+							continue
+						}
 						for _, born := range []string{"msg", "wire"} {
 							q := r.buildQuery(r.u.name[nm], r.u.types[ty], r.u.classes[cl], cd, r.u.client[cli],
 								r.rng.Intn(2) == 0, r.rng.Intn(2) == 0)
@@ -678,7 +685,7 @@ func (r *run) probeChase(x absQuery, exp map[string]absRes) {
 				dims = kept
 			}
 			if len(dims) > 0 {
-				key := fmt.Sprintf("exact-audience/chase/%s/%s/%s", id.kind, strings.Join(dims, "+"), r.u.family)
+				key := fmt.Sprintf("exact-audience/%s/%s/%s", id.kind, strings.Join(dims, "+"), r.u.family)
 				r.res.Violate(key, fmt.Sprintf("[%s %s] alias chase (byWire=%v): hop %s was completed from an entry stored for %s (differs in %s)",
 					r.beh.Name, r.u.family, byWire, r.describeQuery(x), id, strings.Join(dims, ",")),
 					r.replayObj("chase", x, o, "alias="+al))
@@ -825,6 +832,7 @@ func (r *run) apply(si int, st *stepIn, prevStep *stepIn) error {
 		r.res.Count("asks", 1)
 		r.judge(born, x, o, "ask")
 		if (stored != nil) == op.Hit {
+			r.res.Count("drift_"+r.u.family, 1)
 			r.res.DriftNote("[%s %s] ask %s: model hit=%v, code reached downstream=%v", r.beh.Name, r.u.family, r.describeQuery(x), op.Hit, stored != nil)
 			r.dead = true
 			return nil
@@ -943,7 +951,7 @@ func (r *run) purgeChecks(st *stepIn, before, after map[string]outcome) {
 		}
 		sameQ := foldWire(r.u.wire[x.Name]) == foldWire(r.u.wire[pq.Name]) && x.Type == pq.Type && x.Class == pq.Class
 		if sameQ && (now.kind == "pos" || now.kind == "fail" || now.kind == "cut") {
-			key := fmt.Sprintf("purge-incomplete/%s/%s/%s", parts[0], now.kind, r.u.family)
+			key := fmt.Sprintf("purge-incomplete/%s/%s", now.kind, r.u.family)
 			r.res.Violate(key, fmt.Sprintf("[%s %s] after Purge(%q %s %s) route %s still answers %s from cache (%s %s)", r.beh.Name, r.u.family,
 				r.u.name[pq.Name], dns.Type(r.u.types[pq.Type]), dns.Class(r.u.classes[pq.Class]), parts[0], r.describeQuery(x), now.kind, r.describeUIDs(now.uids)),
 				r.replayObj(parts[0], x, now, "purge"))
